@@ -17,6 +17,7 @@
 #include "oomd/config/ConfigCompiler.h"
 
 #include <optional>
+#include <stdexcept>
 #include <vector>
 
 #include "oomd/Log.h"
@@ -145,7 +146,11 @@ std::unique_ptr<Oomd::Engine::Ruleset> compileRuleset(
   // post_action_delay field is optional
   if (ruleset.post_action_delay.size()) {
     try {
-      post_action_delay = std::stoi(ruleset.post_action_delay);
+      size_t end_pos = 0;
+      post_action_delay = std::stoi(ruleset.post_action_delay, &end_pos);
+      if (end_pos != ruleset.post_action_delay.size()) {
+        throw std::invalid_argument("trailing characters");
+      }
     } catch (const std::exception&) {
       OLOG << "Ruleset post_action_delay is not a valid number";
       return nullptr;
@@ -159,7 +164,11 @@ std::unique_ptr<Oomd::Engine::Ruleset> compileRuleset(
   // prekill_hook_timeout field is optional
   if (ruleset.prekill_hook_timeout.size()) {
     try {
-      prekill_hook_timeout = std::stoi(ruleset.prekill_hook_timeout);
+      size_t end_pos = 0;
+      prekill_hook_timeout = std::stoi(ruleset.prekill_hook_timeout, &end_pos);
+      if (end_pos != ruleset.prekill_hook_timeout.size()) {
+        throw std::invalid_argument("trailing characters");
+      }
     } catch (const std::exception&) {
       OLOG << "Ruleset prekill_hook_timeout is not a valid number";
       return nullptr;
